@@ -551,13 +551,18 @@ def r23g(ctx, run):
         run.check(not missing, f.site(), "%s: no entry assertion can fail whatever the first token is" % root, root, "entry-total:" + root, f.file, f.ln,
                   "entering %s with first token %s reaches an assertion about the current token that fails" % (root, sorted({x[0] for x in missing})[:6]))
     for fname, ln, what in ts.findings:
-        f = ts.fns[fname]
-        run.finding("parser::grammar::" + fname, "token-assert:%s" % what.split(";")[0][:70], f.file, ln, "%s: %s (the parser panics on such an input instead of reporting a syntax error)" % (fname, what))
+        f = ts.fns[fname] if fname in ts.fns else ts.pm[fname.split("::", 1)[1]]
+        run.finding(("parser::grammar::" if fname in ts.fns else "parser::") + fname, "token-assert:%s" % what.split(";")[0].split(" (entered from")[0][:70], f.file, ln,
+                    "%s: %s (the parser panics on such an input instead of reporting a syntax error)" % (fname, what))
     n_dec = 0
     for (fname, ln), text in sorted(ts.decided.items()):
         if not any(x[0] == fname and x[1] == ln for x in ts.findings):
             n_dec += 1
             run.ok(ts.fns[fname].site(ln), "%s: assert!(%s) holds at every call site (contract: %d of %d token pairs admitted)" % (fname, text[:60], len(ts.pre[fname]), len(ts.ALL)))
+    if not any(ts.kinds.get((fn_, ln_)) == "bump-at-eof" for fn_, ln_, _ in ts.findings):
+        run.ok("parser/src/grammar", "bump() is only reached with a current token: %d bump sites (those of the Parser's own methods at every call site), none at the end of input" % ts.n_bumps)
+    if ts.n_bumps < 120:
+        raise LookupError("bump sites walked: %d" % ts.n_bumps)
     if n_dec < 20 or ts.n_calls < 80:
         raise LookupError("token assertions decided: %d, grammar call sites checked: %d" % (n_dec, ts.n_calls))
     # the inventory: everything else must have been read
@@ -608,6 +613,6 @@ def rules(ctx):
         Rule("R23.c", "only bump consumes; look-ahead restores the cursor on every exit; entry points run to EOF; the sink adds every token once", 16, r23c),
         Rule("R23.d", "the two unsafe blocks are guarded by their asserts and by the one-byte Event layout", 6, r23d),
         Rule("R23.f", "every bump follows a trivia-skipping query (or bump skips trivia itself): parser and sink stay in step whatever whitespace the input has", 1, r23f),
-        Rule("R23.g", "explicit panics: every assertion about the current token holds on every path (token-knowledge typestate over all grammar functions); every other panic site is listed with a reason", 40, r23g),
+        Rule("R23.g", "explicit panics: every assertion about the current token holds on every path, and bump() is never reached at the end of input (token-knowledge typestate over all grammar functions); every other panic site is listed with a reason", 41, r23g),
         Rule("R23.e", "syntax-error locations are token ranges", 4, r23e),
     ]
